@@ -702,6 +702,8 @@ pub fn run_long(ctx: &Ctx) {
     let _suite_name = "siglong";
     let kinds = [
         "silence", "noise", "tone_mark", "programme", "repeated_preambles", "valid_char_carrier", "further_header", "trailer_late", "fsk_garbage_carrier", "preamble_forever", "lone_bursts", "valid_char_bursts",
+        // no message is ever opened: decode errors / lone bursts, then > 135 s of other audio (C04: no EndOfMessage may appear)
+        "noheader_err_silence", "noheader_err_noise", "noheader_lone_trailer",
     ];
     let n = if ctx.tier_thorough { 120 } else { kinds.len() };
     for i in 0..n {
@@ -716,15 +718,40 @@ pub fn run_long(ctx: &Ctx) {
         let h = gen_header_any(&mut rng).text().into_bytes();
         let mut a = Audio::new(lg.line.clone());
         a.silence(0.5, &mut rng);
-        for k in 0..3 {
-            a.burst(16, &h, &mut rng);
-            if k < 2 {
-                a.silence(lg.pause, &mut rng);
+        if !kind.starts_with("noheader_") {
+            for k in 0..3 {
+                a.burst(16, &h, &mut rng);
+                if k < 2 {
+                    a.silence(lg.pause, &mut rng);
+                }
             }
+            a.silence(1.5, &mut rng);
         }
-        a.silence(1.5, &mut rng);
         let follow = 141.0;
         match kind {
+            "noheader_err_silence" | "noheader_err_noise" => {
+                // two or three bursts that agree on a non-empty prefix which is not a header:
+                // a decode error is reported, no message is opened
+                let nb = rng.range(2, 3);
+                for k in 0..nb {
+                    let mut p = h[..rng.range(5, 12) as usize].to_vec();
+                    p.extend((0..rng.range(4, 30)).map(|_| *rng.pick(CALL_CHARS)));
+                    a.burst(16, &p, &mut rng);
+                    if k + 1 < nb {
+                        a.silence(lg.pause, &mut rng);
+                    }
+                }
+                a.silence(1.5, &mut rng);
+                if kind == "noheader_err_silence" {
+                    a.silence(follow, &mut rng)
+                } else {
+                    noise(&mut a, &mut rng, follow)
+                }
+            }
+            "noheader_lone_trailer" => {
+                a.burst(16, b"NNNN", &mut rng);
+                a.silence(follow, &mut rng);
+            }
             "silence" => a.silence(follow, &mut rng),
             "noise" => noise(&mut a, &mut rng, follow),
             "tone_mark" => tone(&mut a, MARK_HZ, follow),
